@@ -9,7 +9,10 @@ import (
 	"fmt"
 	"os"
 	"path/filepath"
+	"runtime/debug"
 	"strings"
+
+	"golang.org/x/tools/go/ssa"
 )
 
 type Mutant struct {
@@ -86,6 +89,9 @@ func runMutantsFor(c *Ctx) {
 		}
 		c.selftest["mutants"]++
 		ok, msg := runMutant(m, "quick", baseline)
+		// a mutant's program (~2 GB) is garbage now: give it back before loading the next one
+		descCache = map[ssa.Value]string{}
+		debug.FreeOSMemory()
 		if ok {
 			c.selftest["mutants_reported"]++
 			if !c.quiet {
